@@ -238,13 +238,15 @@ def simulate(cfg: dict, root: str, draw: dict, schedule: typing.Optional[list] =
             return iter(sorted(set.__iter__(self), key=lambda p: rank(p.value)))
 
     provider.Bank.__new__ = lambda cls: tuple.__new__(cls, (dict(), OrderedPaths()))  # pylint: disable=use-dict-literal
-    real_load = provider.Bank.Path.load
+    import builtins  # pylint: disable=import-outside-toplevel
 
-    def load(self):
+    def atomic_import(*args, **kwargs):
         with kmod.atomic():  # the interpreter's import locks are real locks: no parking inside an import
-            return real_load(self)
+            return builtins.__import__(*args, **kwargs)
 
-    provider.Bank.Path.load = load
+    # only the import itself is one step: what Bank.Path.load does before and after it is pre-emptible like the rest
+    # of the lookup (the name `__import__` resolves in the module's globals before the builtins)
+    provider.__dict__['__import__'] = atomic_import
     sys.path.insert(0, root)
     import importlib  # pylint: disable=import-outside-toplevel
 
